@@ -56,6 +56,15 @@ func taskUser(tid int) time.Duration {
 // together with the user CPU time the decode thread has spent on it, and exits.
 const HangSeconds = 75
 
+// hangLimit is HangSeconds unless VERIF_WORKER_HANG_S overrides it: C08 only asks whether a
+// decode panics and gives up on a slow one much earlier than C09, whose subject slowness is.
+func hangLimit() time.Duration {
+	if v, err := strconv.Atoi(os.Getenv("VERIF_WORKER_HANG_S")); err == nil && v > 0 {
+		return time.Duration(v) * time.Second
+	}
+	return HangSeconds * time.Second
+}
+
 func liveHeap() uint64 {
 	s := []metrics.Sample{{Name: "/memory/classes/heap/objects:bytes"}}
 	metrics.Read(s)
@@ -77,6 +86,7 @@ func main() {
 	debug.SetGCPercent(100)
 	runtime.LockOSThread()
 	tid := syscall.Gettid()
+	limit := hangLimit()
 	in := bufio.NewReaderSize(os.Stdin, 1<<16)
 	out := bufio.NewWriter(os.Stdout)
 	for {
@@ -105,7 +115,7 @@ func main() {
 				case <-stop:
 					return
 				case <-tk.C:
-					if time.Since(t0) > HangSeconds*time.Second {
+					if time.Since(t0) > limit {
 						// the main goroutine is still inside the decode: report and leave
 						hr := dec.Response{Hung: true, WallMs: int64(time.Since(t0) / time.Millisecond), PeakHeap: peak.Load()}
 						if u := taskUser(tid); u >= 0 && u0 >= 0 {
